@@ -383,7 +383,8 @@ theorem planOf_resp {cs : Bool} {before : Obs} {sel : Sel} {issuer : Option Idp}
             ops := Dict.set o { gop with
               remaining := removeAll (gop.remaining.erase (issuerOf (some rid) issuer)) (soapAnswered cs cfg out),
               soap := gop.soap || !(soapAnswered cs cfg out).isEmpty } g.ops }
-      else { soi := some gop.subj, expect := .free, opId := some o, consumed := some rid, ops := g.ops } := by
+      else { soi := some gop.subj, expect := .free, soapFlag := gop.soap, opId := some o, consumed := some rid,
+             ops := g.ops } := by
   simp only [planOf, hres, hmem, hro, hgo, if_true, Option.bind_some, Option.map_some]
 
 theorem handleResponse_done_some {rid : ReqId} {rec : Rec} {x : Idp} {db' : Db}
@@ -493,7 +494,8 @@ theorem ok_resp (hinv : Inv st g) (sel : Sel) (issuer : Option Idp) : StepOk cfg
             exact pendInv_done hinv h4 hLx (fun r rec' h => hsubP r rec' (by rw [hp'] at h; exact h)) hh' hs'
           · -- the operation is complete already
             have hxr : ¬ x ∈ gop.remaining := by rw [h7]; simp
-            refine ⟨{ soi := some gop.subj, expect := .free, opId := some rec.cell, consumed := some rid, ops := g.ops },
+            refine ⟨{ soi := some gop.subj, expect := .free, soapFlag := gop.soap, opId := some rec.cell,
+                      consumed := some rid, ops := g.ops },
               fun out => by rw [hplan out]; simp only [hxr, if_false], congrArg some h5, Or.inr rfl, rfl, ?_⟩
             intro st' hp' hh' hs'
             exact pendInv_sub hinv rfl (fun r rec' h => hsubP r rec' (by rw [hp'] at h; exact h))
@@ -617,7 +619,8 @@ theorem ok_resp (hinv : Inv st g) (sel : Sel) (issuer : Option Idp) : StepOk cfg
             · rw [h7]; exact hxL
             · rw [h7]; simp
           exact step_assemble (st' := _) (out := .error .value [])
-            { soi := some gop.subj, expect := .free, opId := some rec.cell, consumed := some rid, ops := g.ops } hinv hstepEq
+            { soi := some gop.subj, expect := .free, soapFlag := gop.soap, opId := some rec.cell, consumed := some rid,
+              ops := g.ops } hinv hstepEq
             (by rw [hplan]; simp only [hxr, if_false]) (hread := rfl) (hshape := Or.inl rfl)
             (hends := by intro s0 _ h; cases h)
             (hrem := removed_del rfl rfl) (hadd := added_del rfl) (hreq := request_nil rfl)
